@@ -148,7 +148,11 @@ fn flatten(m: &Model, file: usize, p: &Particle, ctx: &Ctx, out: &mut Vec<ExpFie
             out.push(ExpField {
                 xml: c.name.xml(),
                 rust: field_ident(&c.name),
-                ty: ExpTy::Struct(*to),
+                // an element of a builtin type is no struct: the member has the builtin's type
+                ty: match &c.kind {
+                    CompKind::ElementTyped(t @ TypeRef::Builtin(_)) => ty_of(t),
+                    _ => ExpTy::Struct(*to),
+                },
                 wrap: wrap(occ),
                 attr: false,
                 ns_file: to.file,
